@@ -33,6 +33,11 @@ inductive AOp where
   | intoSignTyped (k : Nat)
   | withSign (k : Nat) (neg : Bool)
   | drop (k : Nat)
+  -- round 4: bit operations (bits.rs) and `Repr::from_ref`
+  | truncate (k n : Nat)
+  | lowestDword (k : Nat)
+  | lowestDwordMut (k lo hi : Nat)
+  | intoBuffer (k : Nat)
   deriving DecidableEq, Repr
 
 def AOp.toOp : AOp → Op
@@ -55,6 +60,10 @@ def AOp.toOp : AOp → Op
   | .intoSignTyped k => .intoSignTyped k
   | .withSign k neg => .withSign k neg
   | .drop k => .drop k
+  | .truncate k n => .truncate k n
+  | .lowestDword k => .lowestDword k
+  | .lowestDwordMut k lo hi => .lowestDwordMut k lo hi
+  | .intoBuffer k => .intoBuffer k
 
 /-- how a public operation ends: storage calls, an optional documented panic after them, and the
     drops performed at the end of the scope / by unwinding; `res` = register holding the result -/
@@ -63,6 +72,8 @@ structure Frag where
   panic : Option Dashu.Model.PanicKind := none
   cleanup : List AOp := []
   res : Nat := 2
+  /-- second result register (`DivRem::div_rem` returns `(quotient, remainder)`) -/
+  res2 : Option Nat := none
   deriving Repr
 
 inductive Form where
@@ -245,17 +256,22 @@ def divScratchWords (la lb : Nat) : Nat :=
   if lb ≤ Dashu.Gen.div_THRESHOLD_SIMPLE ∨ la - lb ≤ Dashu.Gen.div_THRESHOLD_SIMPLE then 0
   else mulScratchWords (min (lb / 2) (la - lb))
 
-def fDivRemLarge (wantRem : Bool) (lr rr la lb va vb : Nat) : Frag :=
+/-- `div_ops.rs repr::div_rem_in_lhs(&mut lhs, &mut rhs)`: `lhs = [lhs % rhs, lhs / rhs]` in the lhs buffer (register
+    `lr`), `rhs` (register `rr`) normalised in place; the scratch block lives for the duration of the call -/
+def fDivRemInLhs (lr rr la lb va vb : Nat) : List AOp :=
   let q := va / vb
   let rm := va % vb
   let shift := W * lb - (Nat.log2 vb + 1)
   let scratch := divScratchWords la lb
-  let common : List AOp :=
-    (if scratch > 0 then [.allocScratch 4 scratch] else []) ++
-    [.overwrite rr (toWords W lb (vb * 2 ^ shift)),                                   -- `div::normalize(rhs)`
-     .overwrite lr (toWords W lb (rm * 2 ^ shift) ++ toWords W (la - lb) q),          -- `[lhs % rhs, lhs / rhs]`
-     .pushResizing lr (q / 2 ^ (W * (la - lb)))] ++                                   -- `push_resizing(quo_carry)`
-    (if scratch > 0 then [.drop 4] else [])
+  (if scratch > 0 then [.allocScratch 4 scratch] else []) ++
+  [.overwrite rr (toWords W lb (vb * 2 ^ shift)),                                   -- `div::normalize(rhs)`
+   .overwrite lr (toWords W lb (rm * 2 ^ shift) ++ toWords W (la - lb) q),          -- `[lhs % rhs, lhs / rhs]`
+   .pushResizing lr (q / 2 ^ (W * (la - lb)))] ++                                   -- `push_resizing(quo_carry)`
+  (if scratch > 0 then [.drop 4] else [])
+
+def fDivRemLarge (wantRem : Bool) (lr rr la lb va vb : Nat) : Frag :=
+  let rm := va % vb
+  let common : List AOp := fDivRemInLhs W lr rr la lb va vb
   if wantRem then
     { ops := common ++ [.overwrite rr (toWords W lb rm), .fromBuffer rr], cleanup := [.drop lr], res := rr }
   else
@@ -359,6 +375,10 @@ def AOp.swap01 : AOp → AOp :=
   | .intoSignTyped k => .intoSignTyped (sw k)
   | .withSign k n => .withSign (sw k) n
   | .drop k => .drop (sw k)
+  | .truncate k n => .truncate (sw k) n
+  | .lowestDword k => .lowestDword (sw k)
+  | .lowestDwordMut k lo hi => .lowestDwordMut (sw k) lo hi
+  | .intoBuffer k => .intoBuffer (sw k)
 
 def Frag.swap01 (f : Frag) : Frag :=
   { ops := f.ops.map AOp.swap01, panic := f.panic, cleanup := f.cleanup.map AOp.swap01,
